@@ -72,6 +72,7 @@ func (s *Sym) Integral(a *RF) bool {
 
 // MakeFn builds name(args) applying the rewrite rules.
 func (s *Sym) MakeFn(name string, args ...*RF) *RF {
+	workUnits += 4
 	switch name {
 	case "math.Pow":
 		if len(args) == 2 {
@@ -198,6 +199,10 @@ func (s *Sym) MakeFn(name string, args ...*RF) *RF {
 			}
 			if at := args[0].SingleAtom(); at != nil && strings.HasPrefix(at.Name, "makeslice:") && len(at.Args) == 1 {
 				return at.Args[0]
+			}
+			// len([]byte(s)) = len(s): the conversion copies the bytes of the string
+			if at := args[0].SingleAtom(); at != nil && at.Name == "conv:[]byte" && len(at.Args) == 1 {
+				return s.MakeFn("len", at.Args[0])
 			}
 		}
 	case "builtin:append":
